@@ -6,7 +6,7 @@ With --scratch the change is applied to a scratch worktree of /repo instead and 
 usage: run_seeded.py [seeded-dir-name ...] [--checks=C05,C06] [--scratch]"""
 import json, os, subprocess, sys, time
 
-ENV = dict(os.environ, GOFLAGS='-mod=mod', GOPROXY='off', GOSUMDB='off', GOTOOLCHAIN='local', VERIF_NO_MINIMISE='1')
+ENV = dict(os.environ, GOFLAGS='-mod=mod', GOPROXY='off', GOSUMDB='off', GOTOOLCHAIN='local', VERIF_NO_MINIMISE='1', VERIF_STOP_AT_FIRST='1')
 
 def sh(cmd, **kw):
     return subprocess.run(cmd, shell=True, capture_output=True, text=True, errors='replace', env=ENV, **kw)
